@@ -434,6 +434,7 @@ pub struct LayoutStats {
     pub top_of_range_scripts: usize,
     pub reads_before_first_step: usize,
     pub reads_between_submission_and_step: usize,
+    pub repeated_reads_within_a_step: usize,
     pub quiet_steps: usize,
     pub steps_that_traded: usize,
     pub states: usize,
@@ -646,6 +647,15 @@ pub fn gen_layout_script(id: usize, rng: &mut Sm, numpy_env: bool, st: &mut Layo
             calls.push(layout("level_1_data_array", doc_level1(&env, last_traded), asym));
             calls.push(layout("level_2_data_array", doc_level2(&env, last_traded), asym));
         }
+        if rng.chance(0.4) {
+            // the same arrays requested again within the step (the executor overwrites a third of the values it was handed
+            // back, in place: what a later call returns must not depend on what the caller did with an earlier result)
+            st.repeated_reads_within_a_step += 1;
+            let (l2, l1) = if numpy_env { ("level_2_data", "level_1_data") } else { ("level_2_data_array", "level_1_data_array") };
+            calls.push(layout(l2, doc_level2(&env, last_traded), asym));
+            calls.push(layout(l1, doc_level1(&env, last_traded), asym));
+            calls.push(layout(l2, doc_level2(&env, last_traded), asym));
+        }
     }
     let traded = traded_per_step(&env, t0, step_size);
     calls.push(json!({"m": "get_market_data", "args": [], "kwargs": {}, "expect": market_data_expect(&env, &traded)}));
@@ -762,7 +772,7 @@ pub fn write_scripts(seed: u64, n: usize, path: &str) -> i32 {
     let scratch = std::env::var("BVMON_SCRATCH").unwrap_or_else(|_| "/tmp".into());
     std::fs::create_dir_all(&scratch).ok();
     let mut scripts = Vec::new();
-    let mut st = LayoutStats { bottom_of_range_scripts: 0, top_of_range_scripts: 0, reads_before_first_step: 0, reads_between_submission_and_step: 0, quiet_steps: 0, steps_that_traded: 0, states: 0, asym_states: 0, keys: Vec::new() };
+    let mut st = LayoutStats { bottom_of_range_scripts: 0, top_of_range_scripts: 0, reads_before_first_step: 0, reads_between_submission_and_step: 0, repeated_reads_within_a_step: 0, quiet_steps: 0, steps_that_traded: 0, states: 0, asym_states: 0, keys: Vec::new() };
     for i in 0..n {
         match i % 4 {
             0 => scripts.push(gen_orderbook_script(i, &mut rng, 60, &scratch).script),
@@ -885,6 +895,7 @@ pub fn c18(ctx: &Ctx) -> i32 {
         "stepenv_scripts_whose_schedule_could_not_be_settled": res.as_ref().map(|r| r["alt_unsettled_scripts"].clone()).unwrap_or(Value::Null),
         "last_slot_test_over_those_scripts": res.as_ref().map(|r| r["alt_schedule_last_slot"].clone()).unwrap_or(Value::Null),
         "scripts_with_exceptions": with_exc,
+        "returned_values_overwritten_by_the_caller": res.as_ref().map(|r| r["returns_overwritten_by_caller"].clone()).unwrap_or(Value::Null),
         "snapshots_python_to_rust": cross_rs,
         "python": res.as_ref().ok().map(|r| r["python"].clone()),
         "numpy": res.as_ref().ok().map(|r| r["numpy"].clone()),
@@ -896,7 +907,7 @@ pub fn c19(ctx: &Ctx) -> i32 {
     let n_scripts = ctx.tier.pick(2000, 25_000);
     let mut rng = Sm::derive(ctx.seed, 0xC19);
     let mut scripts = Vec::new();
-    let mut st = LayoutStats { bottom_of_range_scripts: 0, top_of_range_scripts: 0, reads_before_first_step: 0, reads_between_submission_and_step: 0, quiet_steps: 0, steps_that_traded: 0, states: 0, asym_states: 0, keys: Vec::new() };
+    let mut st = LayoutStats { bottom_of_range_scripts: 0, top_of_range_scripts: 0, reads_before_first_step: 0, reads_between_submission_and_step: 0, repeated_reads_within_a_step: 0, quiet_steps: 0, steps_that_traded: 0, states: 0, asym_states: 0, keys: Vec::new() };
     for i in 0..n_scripts {
         scripts.push(gen_layout_script(i, &mut rng, i % 2 == 1, &mut st));
     }
@@ -969,6 +980,8 @@ pub fn c19(ctx: &Ctx) -> i32 {
         "dict_checks": r["dict_checks"],
         "dataframe_checks": r["dataframe_checks"],
         "self_oracle_checks": r["self_oracle_checks"],
+        "repeated_reads_within_a_step": st.repeated_reads_within_a_step,
+        "returned_values_overwritten_by_the_caller": r["returns_overwritten_by_caller"],
         "scripts_whose_state_left_the_rust_twin": r["twin_divergences"],
         "doc_tables": r["doc"],
         "numpy": r["numpy"],
